@@ -1290,21 +1290,74 @@ class Result:
 
 
 # ----------------------------------------------------------------------------------------------- solving
-def prove(claim, assumptions=(), axioms=(), timeout=60, tactic=None):
-    """returns ('proved', None) / ('refuted', model) / ('unknown', reason)"""
+def dbl(x):
+    """exact real value of the IEEE double nearest to x (constants in the source are doubles)"""
+    import fractions
+    return RealVal(str(fractions.Fraction(float(x))))
+
+
+def _solve(claim, assumptions, axioms, timeout, tactic, want_model=True):
     sol = Solver() if tactic is None else z3.Tactic(tactic).solver()
     sol.set('timeout', int(timeout * 1000))
     for a in axioms: sol.add(a)
     for a in assumptions: sol.add(a)
-    sol.add(Not(claim))
+    if claim is not None: sol.add(Not(claim))
     r = sol.check()
-    if r == unsat: return 'proved', None
-    if r == sat: return 'refuted', sol.model()
+    if r == unsat: return 'unsat', None
+    if r == sat:
+        m = sol.model(); out = {}
+        try:
+            for d in m.decls():
+                out[d.name()] = str(m[d])[:600]
+        except Exception as e:
+            out['_model_error'] = repr(e)
+        return 'sat', out
     return 'unknown', sol.reason_unknown()
 
 
+def hard(fn, timeout):
+    """run fn() in a forked child with a hard wall-clock limit (z3's own timeout is not reliable inside nlsat)"""
+    import pickle, signal, select
+    r, w = os.pipe()
+    pid = os.fork()
+    if pid == 0:
+        os.close(r)
+        try:
+            res = fn()
+        except Exception as e:
+            res = ('unknown', 'exception: %r' % e)
+        try:
+            with os.fdopen(w, 'wb') as f: pickle.dump(res, f)
+        finally:
+            os._exit(0)
+    os.close(w)
+    t0 = time.time(); data = b''
+    try:
+        while True:
+            left = timeout + 5 - (time.time() - t0)
+            if left <= 0: break
+            rl, _, _ = select.select([r], [], [], left)
+            if not rl: break
+            chunk = os.read(r, 1 << 16)
+            if not chunk: break
+            data += chunk
+    finally:
+        os.close(r)
+        try: os.kill(pid, signal.SIGKILL)
+        except Exception: pass
+        try: os.waitpid(pid, 0)
+        except Exception: pass
+    if not data: return ('unknown', 'hard timeout after %ds' % timeout)
+    try: return pickle.loads(data)
+    except Exception as e: return ('unknown', 'result unreadable: %r' % e)
+
+
+def prove(claim, assumptions=(), axioms=(), timeout=60, tactic=None):
+    """returns ('proved', None) / ('refuted', model dict) / ('unknown', reason); hard wall-clock limit"""
+    res, m = hard(lambda: _solve(claim, assumptions, axioms, timeout, tactic), timeout)
+    return {'unsat': 'proved', 'sat': 'refuted'}.get(res, 'unknown'), m
+
+
 def satisfiable(assumptions, axioms=(), timeout=30):
-    sol = Solver(); sol.set('timeout', int(timeout * 1000))
-    for a in axioms: sol.add(a)
-    for a in assumptions: sol.add(a)
-    return sol.check()
+    res, m = hard(lambda: _solve(None, assumptions, axioms, timeout, None), timeout)
+    return {'unsat': unsat, 'sat': sat}.get(res, unknown)
